@@ -43,6 +43,8 @@ def motions():
         't2': M((-0.5, 1.5, 0.5)),
         'id': M((0.0, 0.0, 0.0)),          # an explicit identity transformation is still a transformation
         'rz90b': M((-0.5, 1.5, 0.5), RZ90.T),
+        # orientation-reversing matrix (mirror image of the universe), typed with all nine entries
+        'my': M((1.0, -0.5, 0.0), (RZ30 @ np.diag([1.0, -1.0, 1.0])).T),
     }
 
 
@@ -59,7 +61,7 @@ def make_tr(deck, key, spelling, number):
 
 
 SPELL = ['inline', 'number', 'star', 'inline3', 'numstar', 'inline-dot']
-TKEYS = ['none', 't', 'rz90', 'rz30', 'rx90', 't2', 'id', 'rz90b']
+TKEYS = ['none', 't', 'rz90', 'rz30', 'rx90', 't2', 'id', 'rz90b', 'my']
 
 
 def build(ch, with_options=True):
@@ -87,7 +89,7 @@ def build(ch, with_options=True):
     t11 = ch.choose('t11', TKEYS) if fill11 else 'none'
     sp10 = ch.choose('sp10', SPELL) if t10 != 'none' else 'inline'
     sp11 = ch.choose('sp11', SPELL) if t11 != 'none' else 'inline'
-    trcl11 = ch.choose('trcl11', ['none', 't', 'rz90', 'rz30'])
+    trcl11 = ch.choose('trcl11', ['none', 't', 'rz90', 'rz30', 'my'])
     sptrcl = ch.choose('sptrcl', ['inline', 'number', 'star', 'inline-dot']) if trcl11 != 'none' else 'inline'
     utrcl = ch.choose('utrcl', ['none', 't', 'rz90'])
     t2 = ch.choose('t2', ['none', 't2', 'rz90', 'rx90', 'id']) if depth >= 2 else 'none'
